@@ -83,13 +83,35 @@ def run(ctx):
         for rr in runs:
             if rr["rc"] != 0:
                 res["failures"].append({"property": prop, "what": "stress run violates serialisation / refcount accounting: %s %s" % (rr["line"], rr["err"]), "run": rr})
+    # the same racing final releases under Miri (nightly toolchain, offline): its data-race detector
+    # sees an unsynchronised free that no x86 run can exhibit (a Release-only decrement, a Relaxed one)
+    miri = {"runs": 0, "note": ""}
+    md = os.path.join(work, "miri")
+    os.makedirs(os.path.join(md, "src"), exist_ok=True)
+    open(os.path.join(md, "Cargo.toml"), "w").write('[package]\nname = "miri_c20"\nversion = "0.1.0"\nedition = "2021"\n[features]\ndefault = ["std"]\nstd = []\n[workspace]\n')
+    open(os.path.join(md, "src", "main.rs"), "w").write(src)
+    for ms in range(2 if tier == "quick" else 12):
+        rc3, o3, e3 = vlib.run(["cargo", "+nightly", "miri", "run", "--offline", "--", "race", "5"], cwd=md, timeout=900,
+                               env=dict(vlib.ENV, MIRIFLAGS="-Zmiri-seed=%d" % ms, CARGO_TARGET_DIR=os.path.join(md, "target")))
+        txt = (o3 or "") + (e3 or "")
+        if "Undefined Behavior" in txt:
+            ub = [l for l in txt.split("\n") if "Undefined Behavior" in l][0]
+            res["failures"].append({"property": prop, "miri_seed": ms, "what": "Miri: %s (rounds of 2-4 threads releasing their last handles at the same instant)" % ub.strip()[:400],
+                                    "how": "cargo +nightly miri run -- race 5 on rt/rust/stress.rs against the generated ICounter and tests/src/object"})
+            miri["runs"] += 1
+            break
+        if rc3 == 0 and "race rounds=" in txt:
+            miri["runs"] += 1
+        else:
+            miri["note"] = "miri not usable here: " + txt[-200:]
+            break
     invocations = sum(int(re.search(r"bumps=(\d+)", rr["line"]).group(1)) for rr in runs if "bumps=" in rr["line"])
     res["coverage"] = {
         "evaluations": arms_total + len(runs), "distinct_nontrivial": arms_total,
         "rule": "every match arm of every Rust skeleton generated for %d random interfaces (structure facts), plus stress runs of one generated "
                 "object with 2/8/16 threads performing random clone / drop / invoke sequences and rounds of 2-4 threads releasing their last handles at the same instant; non-trivial = an arm with a method call" % n,
         "samples": [rr for rr in runs[:3]], "skeleton_arms_checked": arms_total, "stress_runs": len(runs), "stress_invocations": invocations,
-        "conc_facts": ctx.get("conc_facts"),
+        "conc_facts": ctx.get("conc_facts"), "miri": miri,
     }
     res["trusted_extra"] = ["sequentially consistent interleaving semantics for AtomicUsize and Mutex (weak-memory behaviour of Relaxed/SeqCst not modelled)"]
     return res
